@@ -226,6 +226,27 @@ def setValue (name : Bytes) (v : Val) : M Bool := fun rt =>
       | none => .crash "unreachable" rt
       | some vs => .ok true (setFrame rt id { f with vars := some (aset name v vs) })
 
+/-- the scope `LetGlobal` writes to: walk up while the parent has a non-nil variable map -/
+def letGlobalTarget (rt : RT) : List Nat → Option Nat
+  | [] => none
+  | [id] => some id
+  | id :: p :: rest =>
+    match frameAt rt p with
+    | some f => if f.vars.isSome then letGlobalTarget rt (p :: rest) else some id
+    | none => some id
+
+/-- `Runtime.LetGlobal` -/
+def letGlobal (name : Bytes) (v : Val) : M Unit := fun rt =>
+  match letGlobalTarget rt rt.scope with
+  | none => .crash "nil pointer dereference" rt
+  | some id =>
+    match frameAt rt id with
+    | none => .crash "dangling scope" rt
+    | some f =>
+      match f.vars with
+      | none => .crash "assignment to entry in nil map" rt
+      | some vs => .ok () (setFrame rt id { f with vars := some (aset name v vs) })
+
 def getBlockChain (rt : RT) (name : Bytes) : List Nat → Option BlockN
   | [] => none
   | id :: rest =>
@@ -1029,6 +1050,102 @@ def execBuiltin (r : Rec) (env : Env) (isExec : Bool) (a : Args) : M Val :=
           pure (if isExec then v else .hidden true)
   | _ => unsupported "template name of non-string kind"
 
+/-- `Runtime.YieldBlock(name, context)` -/
+def yieldBlockApi (r : Rec) (env : Env) (name : Bytes) (ctx : Val) : M Unit := do
+  match ← getBlock name with
+  | none => errPlain "Block was not found"
+  | some blk =>
+    if ctx.isValid then do
+      let _ ← withCtxND ctx (r.execList env blk.body)
+      pure ()
+    else do
+      let _ ← r.execList env blk.body
+      pure ()
+
+/-- harness `recset`: `Arguments.IsSet(i)` for every argument, as a `[]interface{}` of bools -/
+def recsetLoop (r : Rec) (env : Env) (a : Args) : Nat → Nat → List Val → M Val
+  | 0, _, acc => pure (.slice acc.reverse true false)
+  | fuel + 1, i, acc => do
+    let t ← a.isSet r env i
+    recsetLoop r env a fuel (i + 1) (.bool t :: acc)
+
+/-- harness `parse3`: `a.ParseInto(&i, &s, &v)` with i int, s string, v interface{}; then exactly 3
+    arguments; returns fmt.Sprint(i, "/", s, "/", v) -/
+def parse3Func (r : Rec) (env : Env) (a : Args) : M Val :=
+    (if a.num > 3 then errPlain "have more arguments than pointers to parse into" else do
+      let g0 ← (if a.num > 0 then do
+          let x ← a.get r env 0
+          let x := x.indirectEface
+          if !x.isValid then errPlain "argument is not a valid value" else
+          let i ← liftP (parseIntoInt x)
+          pure (some i) else pure none)
+      let g1 ← (if a.num > 1 then do
+          let x ← a.get r env 1
+          match x.indirectEface with
+          | .str s => pure (some s)
+          | .invalid | .iface .invalid => errPlain "argument is not a valid value"
+          | .opaque _ | .hidden _ => unsupported "ParseInto on opaque"
+          | _ => errPlain "could not parse into *string"
+        else pure none)
+      let g2 ← (if a.num > 2 then do
+          let x ← a.get r env 2
+          let x := x.indirectEface
+          if !x.isValid then errPlain "argument is not a valid value" else pure (some x) else pure none)
+      match g0, g1, g2 with
+      | some i, some s, some v =>
+        (match fmtComposite (Val.indirectInterface v) with
+         | some t => pure (.str (intToDec i ++ [47] ++ s ++ [47] ++ t))
+         | none => unsupported "fmt.Sprint of the third argument")
+      | _, _, _ => errPlain "parse3 needs 3 arguments")
+
+def apiName (v : Val) : P Bytes :=
+  match v with
+  | .str s => pure s
+  | _ => unsupported "Runtime API called with a non-string name"
+
+/-- `reflect.ValueOf(v.Interface())` (nil for an invalid value): how the harness functions hand a
+    template value to `Let` / `Set` / `YieldBlock` -/
+def viaInterface (v : Val) : Val := Val.indirectInterface v
+
+/-- the harness's jet.Func wrappers around the exported Runtime API (eval.go `Let`, `Set`,
+    `SetOrLet`, `LetGlobal`, `Resolve`, `Context`, `YieldBlock`), acting on the call site's runtime -/
+def applyApiFunc (r : Rec) (env : Env) (id : String) (a : Args) : M Val :=
+  let two (k : Bytes → Val → M Val) : M Val :=
+    if a.num != 2 then errPlain "unexpected number of arguments" else do
+      let n ← a.get r env 0
+      let v ← a.get r env 1
+      let name ← liftP (apiName n)
+      k name (viaInterface v)
+  if id == "apiLet" then two fun name v => do letVar name v; pure .invalid
+  else if id == "apiSet" then two fun name v => do
+    let ok ← setValue name v
+    if ok then pure .invalid else errPlain "could not assign: variable is uninitialised"
+  else if id == "apiSetOrLet" then two fun name v => do
+    let ok ← setValue name v
+    if ok then pure .invalid else do letVar name v; pure .invalid
+  else if id == "apiLetGlobal" then two fun name v => do letGlobal name v; pure .invalid
+  else if id == "apiResolve" then
+    (if a.num != 1 then errPlain "unexpected number of arguments" else do
+      let n ← a.get r env 0
+      let name ← liftP (apiName n)
+      match ← resolve env name with
+      | some v => pure v
+      | none => pure .invalid)
+  else if id == "apiContext" then
+    (if a.num != 0 then errPlain "unexpected number of arguments" else do
+      let rt ← getRT
+      pure rt.ctx)
+  else if id == "apiYield" then
+    (if a.num < 1 || a.num > 2 then errPlain "unexpected number of arguments" else do
+      let n ← a.get r env 0
+      let name ← liftP (apiName n)
+      let ctx ← (if a.num == 2 then do let c ← a.get r env 1; pure (viaInterface c) else pure .invalid)
+      yieldBlockApi r env name ctx
+      pure .invalid)
+  else if id == "recset" then recsetLoop r env a a.num 0 []
+  else if id == "parse3" then parse3Func r env a
+  else unsupported ("jet func " ++ id)
+
 /-- a jet.Func built-in -/
 def applyJetFunc (r : Rec) (env : Env) (id0 : String) (a : Args) : M Val :=
   let id := if id0 == "array" then "slice" else id0
@@ -1058,7 +1175,7 @@ def applyJetFunc (r : Rec) (env : Env) (id0 : String) (a : Args) : M Val :=
     -- harness recorder: logs the number of arguments, then evaluates each in order
     logE (.call "rec" a.num)
     recLoop r env a a.num 0 []
-  else unsupported ("jet func " ++ id)
+  else applyApiFunc r env id a
 where
   /-- the `len` built-in on an evaluated argument -/
   lenOf (v : Val) : P Val :=
